@@ -412,11 +412,19 @@ impl WireEncode for WireHostAddr {
             WireHostAddr::V4(_) => Ok(()),
             WireHostAddr::V6(_) => Ok(()),
             WireHostAddr::Svc(_) => Ok(()),
-            WireHostAddr::Unknown { bytes, .. } => {
+            WireHostAddr::Unknown { id, bytes } => {
                 if bytes.is_empty() {
                     Err("ScionHostAddr::Unknown bytes.len() must be non-zero".into())
                 } else if !bytes.len().is_multiple_of(4) {
                     Err("ScionHostAddr::Unknown bytes.len() must be a multiple of 4".into())
+                } else if *id > 0b11 {
+                    Err("ScionHostAddr::Unknown id must fit the 2-bit address type field".into())
+                } else if !matches!(
+                    WireHostAddrType::from(u8::from(self.addr_type())),
+                    WireHostAddrType::Unknown { .. }
+                ) {
+                    // (id, length) is the wire encoding of IPv4, IPv6 or a service address
+                    Err("ScionHostAddr::Unknown must not use the type and length of a known address type".into())
                 } else {
                     Ok(())
                 }
